@@ -51,6 +51,8 @@ type verifZKServer struct {
 	alive       map[int64]bool // session id -> alive
 	nextSession int64
 	Log         []string
+	// OnDelete is called right before a delete request is APPLIED by the server.
+	OnDelete func(c *verifZKClient, path string)
 }
 
 func newVerifZKServer() *verifZKServer {
@@ -257,6 +259,9 @@ func (c *verifZKClient) Delete(path string, version int32) error {
 	case c.srv.hasChildren(path):
 		res = zk.ErrNotEmpty
 	default:
+		if c.srv.OnDelete != nil {
+			c.srv.OnDelete(c, path)
+		}
 		delete(c.srv.nodes, path)
 		for i, q := range c.srv.order {
 			if q == path {
